@@ -29,8 +29,8 @@ func addr(i int) types.Address { return ops.Users[i].Address }
 
 // world is the single producer history all ledger states are cut from.
 //
-//	h2: s0 = U1->U2 3 ZNN ; f6 = U1 fuses 50 QSR for User6 ; t6 = U1->U6 2 ZNN
-//	h3: (plasma contract receive of f6) ; r0 = U2 receives s0 ; s1 = U1->U2 500 ZNN ; s2 = U3->U2 7 QSR ; s3 = U1->U5 5 ZNN ;
+//	h2: s0 = U1->U2 3 ZNN ; f6 = U1 fuses 50 QSR for User6 ; t6 = U1->U6 2 ZNN ; z0 = U1->U2 0 ZNN
+//	h3: (plasma contract receive of f6) ; r0 = U2 receives s0 ; rz0 = U2 receives z0 ; s1 = U1->U2 500 ZNN ; s2 = U3->U2 7 QSR ; s3 = U1->U5 5 ZNN ;
 //	    c1 = U4 stakes 10 ZNN ; c1b = U5 stakes 10 ZNN ; c2 = Pillar4 registers a sentinel without QSR deposit (refunded on
 //	    receive) ; c2b = same by Pillar5
 //	h4: contract receives of c1, c1b, c2 (+refund send), c2b (+refund send) ; c3, c3b = two more stake calls ; c4, c4b two more
@@ -76,8 +76,13 @@ func buildWorld(c *xs.Ctx) *world {
 	do("s0", ops.Op{K: "T", A: u1, B: u2, V: 3})
 	do("f6", ops.Op{K: "Call", S: "fuse", A: u1, B: u6, V: 50})
 	do("t6", ops.Op{K: "T", A: u1, B: u6, V: 2})
-	do("", M) // h2
+	do("z0", ops.Op{K: "Tx", A: u1, B: u2, T: 0, V: 0}) // a zero-amount send (nothing to credit when it is received)
+	do("", M)                                           // h2
 	do("r0", ops.Op{K: "R", A: u2})
+	do("rz0", ops.Op{K: "R", A: u2})
+	if w.named["r0"].FromBlockHash != w.named["s0"].Hash || w.named["rz0"].FromBlockHash != w.named["z0"].Hash {
+		panic("world: r0/rz0 do not receive s0/z0")
+	}
 	do("s1", ops.Op{K: "T", A: u1, B: u2, V: 500})
 	do("s2", ops.Op{K: "T", A: u3, B: u2, T: 1, V: 7})
 	do("s3", ops.Op{K: "T", A: u1, B: u5, V: 5})
